@@ -15,7 +15,10 @@ mod trn;
 
 fn main() {
     // silence panic messages of caught panics
-    std::panic::set_hook(Box::new(|_| {}));
+    // (VERIF_PANIC_VERBOSE=1 prints them: used to debug the harness itself)
+    if std::env::var("VERIF_PANIC_VERBOSE").is_err() {
+        std::panic::set_hook(Box::new(|_| {}));
+    }
     let args: Vec<String> = std::env::args().collect();
     if args.len() < 5 {
         eprintln!("usage: vharness <prop> <seed> <ncases> <outdir> [corpus-file]");
